@@ -136,6 +136,14 @@ def warmup(dec, dm_obj, dm_case, spec):
                 dec.evaluate(G.mkdm(decoy_dm(dm_case)))
             except Exception:
                 pass
+        # the same NUMBERS under other alternative / criterion labels, on the same decision-maker object (SIMUS included: a result
+        # kept from an earlier call must not be handed out for a problem that only looks the same)
+        try:
+            relabelled = dict(dm_case, alternatives=[f"zz{i}" for i in range(len(dm_case["alternatives"]))][::-1],
+                              criteria=[f"yy{j}" for j in range(len(dm_case["criteria"]))], via=False)
+            dec.evaluate(G.mkdm(relabelled))
+        except Exception:
+            pass
         for other in (moora.FullMultiplicativeForm(), moora.RatioMOORA(), similarity.TOPSIS(metric="cityblock")):
             try:
                 other.evaluate(dm_obj)
